@@ -323,10 +323,10 @@ PROPS = {
         "rule": "world/hoplike: seeded histories (60-120 ops, then a drain that resolves every packet) on three ibctesting chains with four v1 transfer channels, their v2 aliases and direct v2 clients: MsgTransfer (native / voucher / multi-hop, amounts incl. 0, 1, 2^63, balance+1, the 2^256-1 entire-balance sentinel; receivers incl. blocked module accounts, undecodable strings, escrow addresses, blank; signer/sender mismatches; direct msg-server calls; past / zero / near / far timeouts), raw v2 MsgSendPacket, relay recv / ack / timeout in any order with duplicates, receive / send disabled through params, bank sends incl. into escrow accounts, time jumps; every op's answer carries the canonical delta of all balances, supplies, tracked escrow and stored denominations of the executing chain and is compared with the Lean model; monitors: the refund delta of every timeout / error ack must be the exact inverse of the send delta of that packet, a success ack or a failed / redundant message must change nothing; findings: the pre-fix witnesses as regression cases. A case is non-trivial when the op did not fail with an error class; distinct = distinct canonical request",
         "trusted": ["core IBC (which callback runs when) is abstract in the model; the driver's packet layer and the LifecycleOK hypothesis state what C01/C03/C04/C06 provide; the harness exercises the real core handlers with real proofs",
                     "SDK bank keeper (SendCoins/MintCoins/BurnCoins), address codec, blocked-address list, CacheContext / transaction atomicity are parameters of the model (Config, Bank) and are exercised for real by the harness",
-                    "timeout-on-close is not exercised (transfer channels cannot be closed by users); it reaches the same OnTimeoutPacket callback"],
+                    "timeout-on-close is modelled (Op.timeout p true) but not exercised by the harness (transfer channels cannot be closed by users; the generator always relays MsgTimeout)"],
         "assumptions": ["LifecycleOK (named hypothesis): fresh sequences (C08), receive only of sent packets (C05) at most once (C01), timeout excludes receive (C04), ack carries the receiver's result (C06), at most one of ack/timeout completes (C03)",
                         "StoreStable: stored denominations re-parse to themselves — proved along all LifecycleOK histories (Ics20.storeStable_run) under PeerIdsOK (destination channel/client ids in ibc-go's format)"],
-        "level_text": "full: the refund (timeout, v1 error ack, v2 sentinel) is the exact inverse of the send on every balance, supply and tracked-escrow entry of the sending chain for native and voucher tokens over v1, alias and v2 (frame law over arbitrary interleavings); credits exactly the sent amount to the original sender; completes at most once along every lifecycle-respecting history; a success ack changes nothing; v1/v2 ack decoding. The pre-fix failure (refund of a hop-like native minted a voucher) is repaired by 4b2f809 and replayed as a regression case",
+        "level_text": "full: the refund (timeout, v1 error ack, v2 sentinel) is the exact inverse of the send on every balance, supply and tracked-escrow entry of the sending chain for native and voucher tokens over v1, alias and v2 (frame law over arbitrary interleavings); credits exactly the sent amount to the original sender; completes at most once along every lifecycle-respecting history; a success ack changes nothing; v1/v2 ack decoding. The pre-fix failure (refund of a hop-like native minted a voucher) is repaired by 4b2f809 and replayed as a regression case. Timeout-on-close: Op.timeout carries the onClose flag (MsgTimeoutOnClose, v1); it is the same callback (timeout_on_close_same_callback) admitted by core only for never-received packets (Guard, C03/C14), so refund_restores / refund_credits_sender / refund_at_most_once cover it",
     },
     "C49": {
         "lean": ["IbcVerif.Props.C49"],
@@ -385,17 +385,19 @@ PROPS = {
                         "Assm.hashInj: the hash does not collide on the denomination paths in play (idealised SHA-256)",
                         "Assm.peerIds / peerSym: channel and client identifiers are '/'-free and in ibc-go's format; channel ends are paired",
                         "LifecycleOK (C01 C03 C04 C05 C06 C08 as hypotheses on the history)",
-                        "PartiesOK: message senders/receivers and bank-send parties are not escrow addresses (a payment into an escrow account outside ICS-20 only raises the escrow side)"],
-        "level_text": "full for the general topology (any number of chains and channel ends; v1, v2-over-alias, v2 clients; all tokens Transfer accepts at any trace depth): escrow on the source = voucher supply on the destination + in flight both ways as an inductive invariant of all lifecycle-respecting histories; native supply unchanged by every step of every world; every credit matched by a debit or a backed mint. The pre-fix refutation (hop-like native base released real escrow) is repaired by 4b2f809 and replayed as a regression case",
+                        "PartiesOK: message senders/receivers and bank-send parties are not escrow addresses (a payment into an escrow account outside ICS-20 only raises the escrow side)",
+                        "NeverReceivedOnClose (the onClose instance of the timeout guard, C03/C14): a packet completes by MsgTimeoutOnClose only if it was never received and has no other terminal outcome",
+                        "pfm_settlement_partial: the override receiver is not an escrow account; a token that arrived by unescrowing from the refund channel's escrow is not itself a voucher of that channel (hunw)"],
+        "level_text": "full for the general topology (any number of chains and channel ends; v1, v2-over-alias, v2 clients; all tokens Transfer accepts at any trace depth): escrow on the source = voucher supply on the destination + in flight both ways as an inductive invariant of all lifecycle-respecting histories; native supply unchanged by every step of every world; every credit matched by a debit or a backed mint. The pre-fix refutation (hop-like native base released real escrow) is repaired by 4b2f809 and replayed as a regression case. Timeout-on-close (v1 MsgTimeoutOnClose) is a lifecycle event of the model (Op.timeout p onClose; same OnTimeoutPacket callback; Guard clause NeverReceivedOnClose = C03/C14) and is covered by escrow_voucher_balance. Packet-forward-middleware refunds: pfm_settlement_conserves_full states that the settlement of a failed forward (pfmRefund + terminal outcome of the forward + re-recording the funding receive as failed) preserves the invariant; PROVED: pfm_settlement_partial (frame law: receive + forward + PFM refund cancel on every account, supply and tracked-escrow entry, all four branch combinations incl. the bounce-back case of f970a92), pfm_refund_native_supply_constant, and a kernel-evaluated 3-chain instance of the full statement; NOT mechanised: the in-flight-sum bookkeeping of the simultaneous status change of the two packets",
     },
     "C31": {
         "lean": ["IbcVerif.Props.C31"],
         "engines": [{"bin": "xfer", "model": "xfer", "model_exe": "xfermodel", "groups": ["world", "hoplike"],
                      "n": (260, 900), "monitor": (0, 0), "workers": 8, "timeout": 7000}],
         "rule": "world/hoplike: seeded histories (60-120 ops + drain to quiescence) on three ibctesting chains joined by four v1 transfer channels (ids chosen so that the two ends differ), their v2 aliases and three direct v2 client pairs: MsgTransfer native / voucher / multi-hop A->B->C->A with amounts incl. 0, 1, 2^63, balance+1 and the 2^256-1 entire-balance sentinel, raw v2 MsgSendPacket, recv / ack / timeout relays in any order with duplicates and random relayers, receive-side failures (blocked receiver, receive disabled, undecodable receiver), signer/sender mismatches, direct msg-server calls, bank sends incl. into escrow accounts, time jumps; hoplike worlds additionally give users native coins shaped like voucher paths (all rejected by Transfer since 4b2f809). Every op's answer carries the canonical delta (balances of all tracked accounts incl. escrow and module accounts, supplies, tracked total escrow, stored denominations) and is compared with the Lean model; periodic full views; monitor after every successful op on the real state: GetAllTotalEscrowed(d) = sum of the balances of all transfer escrow accounts of the chain in d, minus what the harness itself paid into escrow accounts (bank sends and receives addressed to an escrow address). A case is non-trivial when the op did not fail with an error class; distinct = distinct canonical request",
-        "trusted": ["as C30", "packet-forward-middleware's escrow-to-escrow refund moves (WriteAcknowledgementForForwardedPacket) are not modelled here (apps cluster, C43)"],
+        "trusted": ["as C30", "the packet-forward refund moves are hand-modelled from keeper.go (Model/Ics20Pfm.lean) and are NOT exercised by the xfer harness (empty memos: PFM passes through); their correspondence with the Go code is the apps cluster's C43 engine"],
         "assumptions": ["as C30 (Assm, LifecycleOK, PartiesOK)", "EndsOK: the list of a chain's transfer channel / client identifiers is duplicate-free and covers every identifier that has a counterparty"],
-        "level_text": "partial: full for the transfer module itself on any number of channels (tracked total = combined escrow-account balance after every lifecycle-respecting history; hence never negative: the SetTotalEscrowForDenom panic branch of UnescrowCoin is unreachable; bounded by the escrow balances); the packet-forward refund clause of the statement is outside this model",
+        "level_text": "full for the transfer module on any number of channels (tracked total = combined escrow-account balance after every lifecycle-respecting history incl. timeout-on-close; never negative: the SetTotalEscrowForDenom / unescrowToken panic branches are unreachable; every escrow account bounded by the tracked total) AND for packet-forward-middleware's refund moves: each branch of WriteAcknowledgementForForwardedPacket (escrow->escrow, escrow->burn with unescrowToken, mint->escrow with the total incremented, no-op on bounce-back after f970a92), modelled in Model/Ics20Pfm.lean on the same chain state, preserves the equality and the bound (pfm_refund_keeps_total_escrow_eq_balances, pfm_refund_escrow_account_le_total, pfm_refund_step_keeps_escrow_in_sync, pfm_refund_never_panics_on_total); when PFM decides to run them (in-flight records, retries) is the apps cluster's model (C43)",
     },
     "C33": {
         "lean": ["IbcVerif.Props.C33"],
@@ -467,10 +469,10 @@ PROPS.update({
                      "n": (60, 200), "monitor": (60, 200), "workers": 6, "timeout": 3000}],
         "rule": "pfm: multi-hop forwards on FOUR real ibctesting chains in a line (0-1-2-3, testing/simapp wiring transfer<-PFM<-rate-limit), every hop relayed through core IBC with real proofs: start chain, token origin (native / voucher from any of the four chains => unwinding and non-unwinding hops, mint/unescrow on receive and escrow/burn on forward in every combination), routes of 2-3 hops incl. forwarding back over the arrival channel, outcomes: all hops succeed; error ack at the final chain (invalid receiver); an intermediate chain cannot forward (unknown channel); a forwarded packet times out more often than `retries` (PFM gives up) or within the retry budget (delivered after retries). Observed per scenario: delivered / refunded / stuck, and the COMPLETE bank state (all balances, all supplies) plus the ICS-20 total-escrow table of all four chains before and after, and the PFM override-receiver accounts. The model predicts the class and whether a refund leaves every chain exactly as before from the (receive kind, forward kind) of each intermediate hop, which the generator derives from the token's origin and the route (ground truth it controls)",
         "trusted": ["ICS-20's own behaviour (what a receive credits / a send debits) is the transfer cluster's model (C30-C33); here an intermediate chain is abstracted to the four quantities PFM's refund touches (voucher supply, the two escrow accounts, total escrow)",
-                    "core IBC relaying, acknowledgements and timeouts are real (ibctesting); retries and timeouts are exercised on the real code and covered by the monitor, not by a Lean theorem",
+                    "core IBC relaying, acknowledgements and timeouts are real (ibctesting); whether a re-send succeeds is a parameter of the timeout model (sendOk)",
                     "hashHex (SHA-256 of the denom path) is a parameter of forward_denom_is_credited_denom"],
         "assumptions": ["liveness caveat: if a retry send itself fails the route stays in flight (not a safety violation; reported as 'stuck' by the monitor if it ever happens)"],
-        "level_text": "partial (after fix f970a92): PROOF of forwarded denom = credited denom (all packet denominations), of refund-restores-the-intermediate-chain for ALL four (receive, forward) combinations and every amount/state, and of all-or-nothing lifted to routes of any length by induction on the route; the pre-fix failure (forward back over the arrival channel after a mint: phantom vouchers) is kept as a regression theorem and monitor scenario. Timeouts/retries, override-receiver emptiness and whole-world conservation (complete bank state + total-escrow table of 4 real chains) are monitor-checked, not proved",
+        "level_text": "full for the modelled part (after fix f970a92): PROOF of forwarded denom = credited denom (all packet denominations); refund restores the intermediate chain (voucher supply, both escrow accounts, total escrow, override-receiver balance) for ALL (receive, forward) combinations; timeout path: a retry changes nothing but the in-flight record (retry_conserves), a failing re-send reverts the timeout tx (failed_retry_reverts, the liveness caveat), exhausted retries refund exactly like an error ack (timeout_exhausted_refunds), the override receiver never keeps funds (override_receiver_empty), all-or-nothing for routes of any length with ANY pattern of timeouts / failing re-sends per hop (all_or_nothing_with_timeouts, induction on route x timeout run). The model's prediction of delivered/refunded from (retries, timeouts per hop) is compared with four real chains on every run. Whole-world conservation (complete bank state + total-escrow table of the 4 chains) stays a monitor check; ICS-20's own refund of the first hop is the transfer cluster's (C32)",
     },
 })
 
